@@ -90,6 +90,8 @@ class Interp:
         self.max_states = max_states
         self.obligations = []     # (func name, block, kind, op, ok, detail)
         self.aggregates = []      # (func name, block, En) every ADT aggregate built
+        self.agg_stacks = []      # for each aggregate: the functions on the (inlined) call stack when it was built
+        self.call_stack = []
         self.nstates = 0
 
     # ---- places
@@ -512,6 +514,7 @@ class Interp:
             if kd["k"] == "adt":
                 e = En(kd["i"], vals, kd["variant"], mir.norm(kd["adt"]))
                 self.aggregates.append((f.name, b, e))
+                self.agg_stacks.append(tuple(self.call_stack) + (f.name,))
                 self.write(st, dst, e)
             else:
                 self.write(st, dst, vals)
@@ -540,6 +543,24 @@ class Interp:
                 ok = isinstance(r, IV) and r.fits("i32")
                 self.obligations.append((f.name, b, "Overflow", opn, ok, t["span"]))
                 return r
+        if c.endswith("mem::discriminant") and len(args) == 1 and isinstance(args[0], En):
+            return IV(args[0].variant)
+        if (c.endswith("::eq") or c.endswith("::ne")) and "Discriminant" in c and len(args) == 2 and all(isinstance(x, IV) and x.lo == x.hi for x in args):
+            same = args[0].lo == args[1].lo
+            return same if c.endswith("::eq") else (not same)
+        # lossless integer widening / value-preserving conversions: i64::from(i32), x.into(), i64::from(&x) ...
+        end = c.rsplit("::", 1)[-1]
+        if end in ("from", "into") and ("convert::From" in c or "convert::Into" in c) and len(args) == 1 and isinstance(args[0], IV):
+            gens = [str(x) for x in ((t.get("fn") or {}).get("generics") or [])]
+            ints = [x for x in gens if x in RANGES]
+            if len(ints) >= 2 and args[0].fits(ints[0]) and args[0].fits(ints[1]):
+                return args[0]
+        for opn in ("Mul", "Add", "Sub"):
+            for ity in ("i64", "&i64"):
+                if c == "<%s as std::ops::%s>::%s" % (ity, opn, opn.lower()):
+                    r = self.arith(opn, args[0], args[1], "i64", f, b)
+                    self.obligations.append((f.name, b, "Overflow", opn, isinstance(r, IV) and r.fits("i64"), t["span"]))
+                    return r
         if c.endswith("::branch"):
             v = args[0]
             if isinstance(v, En):   # Result: Ok=0 -> Continue(0), Err=1 -> Break(1)
@@ -552,7 +573,11 @@ class Interp:
         if g is not None and depth < self.max_depth and not g.loop_blocks() and len(g.blocks) < 200:
             sub = Interp.__new__(Interp)
             sub.__dict__ = self.__dict__
-            res = self._run_from(g, 0, State({i + 1: a for i, a in enumerate(args)}), depth + 1, {})
+            self.call_stack.append(f.name)
+            try:
+                res = self._run_from(g, 0, State({i + 1: a for i, a in enumerate(args)}), depth + 1, {})
+            finally:
+                self.call_stack.pop()
             vals = [r for r, s2 in res if not isinstance(r, str)]
             if not vals:
                 return "diverge"
